@@ -16,6 +16,9 @@
     schedule in real threads and, with the observed trace, in the compiled model: per-thread outputs ==
     model outputs == the schedule-independent prediction `den` (theorem objs_results), the model needs
     exactly the steps the real threads took, the published hashes are the model's cache entries.
+(C2) the same for `Model/SharedList.lean` (props/c18lists.py): programs of `sortBy` / `read` over REAL Python lists
+    shared by the threads and the real queries.order_by (every key-selector call a scheduling point) under a schedule
+    vs the model in `SortMode.copy` with the observed trace - outputs, `den`, exact step count, lists afterwards.
 (D) free-running threads under a 1 us switch interval (supporting only).
 (E) dynamic side of `C18Gen.no_shared_writes`: every Context written during (A) was created by the writing
     thread; every OrderingIterable / GroupAggregator written was created by the writing thread.
